@@ -135,6 +135,8 @@ LIBRARY_SMILES = [
     '[NH3+]CC(=O)[O-]', 'CC(=O)[O-]', 'C[N+](C)(C)C', 'C[N+](C)(C)CCO', 'CS(=O)C', 'CS(=O)(=O)C', 'C[S-]',
     'CP(C)C', 'COP(=O)(OC)OC', 'CC#N', 'C=CC#C', 'C=CC(=O)O', 'COCCOCCOC', 'CC(C)(C)C', 'FC(F)(F)C(Cl)Br',
     'C[N+](=O)[O-]',
+    # an upper-case atom directly followed by an aromatic atom whose letters together spell another element (Sc, Co)
+    'CSc1ccc(O)cc1', 'OCc1ccccc1S', 'CCOc1ccccc1',
 ]
 _LIB = None
 
